@@ -90,7 +90,7 @@ Lib ==
                   Comp(7, <<>>, FALSE, "fills", << Fill(C("a"), "", "", << Slot("a", FALSE, FALSE, <<>>, <<>>) >>) >>),
                   Comp(9, <<>>, FALSE, "none", <<>>) >>],
      \* ---- C05 consumer leaf: inject with a default, no slot (never raises)
-     [data |-> << Data("inj", "inject", "", "p", "none"), Data("iq", "inject", "", "q", "noq") >>,
+     [data |-> << Data("inj", "inject", "", "p", "none"), Data("iq", "inject", "", "q", "f:zero") >>,
       tpl  |-> << T("L12"), [t |-> "fld", x |-> "inj", f |-> "f"], [t |-> "fld", x |-> "iq", f |-> "f"] >>]
      ,
      \* ---- C14 c14: a SILENT wrapper - its whole output is nested components (no text, no element of its own,
